@@ -118,7 +118,7 @@ _add(
          "with reduced magnitudes at the stated limit, range invariant checked after every application. distinct = "
          "(operation, bound, half, reduction and route, dtype, inside/outside, contribution form) abstractions.",
     required=["contributions", "applications", "second_applications", "permutation_checks",
-              "custom_reduction_applications", "longrun_applications", "bound_removals"],
+              "custom_reduction_applications", "longrun_applications", "bound_removals", "discarded_pending_updates"],
     floor={"quick": 150, "thorough": 300},
     text="Held on every interleaving explored: parameter values after each update / updatesome / clear on the real "
          "Updater are compared with old + U(reduce(pos)) - L(reduce(neg)) computed from recorded parts, a spy reduction "
@@ -233,7 +233,7 @@ _add(
          "new layer is run k steps, cleared, compared state-by-state with a freshly built copy carrying its parameters and "
          "adaptations, and both replay 5 steps. One evaluation = one compared step or one clear position; distinct = "
          "(layer kind / combine, neuron, synapse, delay, capture, batch, clear position class) abstractions.",
-    required=["wiring_steps_checked", "component_states_compared", "clear_positions_checked", "replays_checked", "recurrent_layers_with_one_sided_output_transforms"],
+    required=["wiring_steps_checked", "component_states_compared", "clear_positions_checked", "replays_checked", "recurrent_layers_with_one_sided_output_transforms", "connection_kwargs_routing_checks"],
     floor={"quick": 150, "thorough": 500},
     exhaustive={"quick": ["clear() at every position 0..T of each generated run"], "thorough": ["clear() at every position 0..T of each generated run"]},
     text="Held on every topology and run explored: layer outputs (and captured intermediates) equal the documented "
@@ -375,7 +375,7 @@ _add(
          "expected number of folds (1 iff trainer and that cell's layer are training, else 0) and probe monitors for "
          "holding the current attribute of their own layer. One evaluation = one operation; non-trivial = everything but "
          "bare mode switches; distinct = (operation, trainer kind, layer, registration counts, sharing, modes).",
-    required=["layer_steps", "slot_observations_checked", "probe_values_checked", "trainer_steps", "listing_checks", "rejected_duplicate_registrations", "cells_died_without_removal", "unit_listing_checks"],
+    required=["layer_steps", "slot_observations_checked", "probe_values_checked", "trainer_steps", "listing_checks", "rejected_duplicate_registrations", "cells_died_without_removal", "unit_listing_checks", "repeated_add_monitor_calls"],
     floor={"quick": 100, "thorough": 300},
     text="Held on every operation sequence explored (apart from listed findings): fold counts per registered monitor "
          "slot follow an explicit registration / mode state machine after every layer step, probe monitors hold the "
